@@ -453,6 +453,12 @@ class Interp:
                 loops = tuple(fr for fr in c.between if fr[0] == "for")
                 if any(fr[0] == "with" for fr in c.between):
                     fenv = c.def_env + tuple(("unspec-with", fr[1], fr[2]) if fr[0] == "with" else fr for fr in c.between) + (alias_fr,)
+                elif "lexical_captured_layer_below_outer_template" in self.sw and c.lex_owner is not None:
+                    # defect model of the listed finding (fill written inside a component template, lexical scoping): the
+                    # layer captured for the fill is inserted BELOW the layers of the template the fill is written in, so
+                    # every name bound there - including an enclosing loop's variable of the same name - hides the loops
+                    # between tag and fill
+                    fenv = loops + c.def_env + (alias_fr,)
                 else:
                     fenv = c.def_env + loops + (alias_fr,)
             elif in_fill:
